@@ -36,8 +36,9 @@ class Plan:
 
 
 class SimRaw(io.RawIOBase):
-	def __init__(self, path, spec, plan):
-		self._f = io.FileIO(path, 'r')
+	def __init__(self, path, spec, plan, open_path=None):
+		# open what the caller named (the OS resolves symlinks before '..'); `path` is only the bookkeeping key
+		self._f = io.FileIO(open_path if open_path is not None else path, 'r')
 		self._spec = spec
 		self._plan = plan
 		self._path = path
@@ -110,7 +111,7 @@ def _open(file, mode='r', buffering=-1, encoding=None, errors=None, newline=None
 				raise OSError(oe, os.strerror(oe), os.fspath(file))
 			if spec.get('fifo') is not None:
 				_feed_fifo(ap, spec['fifo'])
-			raw = SimRaw(ap, spec, plan)
+			raw = SimRaw(ap, spec, plan, open_path=os.fspath(file))
 			if buffering == 0:
 				if 'b' not in mode:
 					raise ValueError("can't have unbuffered text I/O")
